@@ -675,6 +675,20 @@ def eval_tree_case(rec, attrs, variant, shift, geom, deep=True, text=True):
                 for lt, i in zip(lts, got_idx):
                     lab, srcs = real[i]
                     cp = expected_sources(lab, as_props(coded[i]), attrs, vals)
+                    if srcs == cp and cp["Resources"] == 0:
+                        # a page without Resources (own or inherited): whatever its content names, it must not be
+                        # rendered with the fonts of a page that ran before it in the same interpreter, and running it
+                        # alone (page_numbers = its index) must give the same glyph
+                        chs = [c for c in OB.chars_of(lt) if c[0].isalpha()]
+                        if chs and chs[0][2] in RT.FONT_TABLE:
+                            findings.append(("inherit:Resources@render:foreign", "page %s has no Resources (own or inherited) and is rendered with "
+                                             "font %s, which another page's Resources define (%s)" % (lab, chs[0][2], detail)))
+                        ok1, alone = guarded("extract_pages", lambda: list(extract_pages(BytesIO(data), page_numbers=[i])), findings, detail)
+                        if ok1 and len(alone) == 1:
+                            ach = [c for c in OB.chars_of(alone[0]) if c[0].isalpha()]
+                            if [(c[0], c[2]) for c in ach] != [(c[0], c[2]) for c in chs]:
+                                findings.append(("resources:depends-on-earlier-pages", "page %s comes out as %s after the pages before it and as %s "
+                                                 "when extracted alone (%s)" % (lab, [(c[0], c[2]) for c in chs], [(c[0], c[2]) for c in ach], detail)))
                     if srcs != cp or cp["MediaBox"] == 0:
                         continue            # inheritance already reported / MediaBox defaulted (not in the geometry domain)
                     rraw = vals.rotate(cp["Rotate"]) if cp["Rotate"] != 0 else 0
